@@ -92,7 +92,6 @@ pub mod verif {
     pub use super::{
         message::KademliaMessage,
         query::{QueryAction, QueryEngine, VerifQueryDump},
-        types::{ConnectionType, KademliaPeer, Key},
     };
 }
 
